@@ -199,3 +199,98 @@ def run_expmark(prog, rule="R-EXPMARK", floor=1):
     res.counts["literal_scanners_with_an_exponent_case"] = n
     res.floor("literal scanners with an exponent marker case", n, floor)
     return res
+
+
+def run_parts(prog, rule="R-PARTDIGIT", floor=1):
+    """every part of a fraction literal has a digit.  A scanner with a case for '/' starts a new part (the denominator) there; the count it
+    returns must be zero on every path on which the '/' case is entered before any digit case was executed - "/5" is not a number (it was
+    read as 0, the bound `y <= /5` became `y <= 0`).  Same dataflow as R-DIGITSEEN: the state carries 'digit seen' and a ghost 'a part was
+    closed without a digit'; flag locals are tracked so that the rejection `if (bad) count = 0` is followed."""
+    res = RuleResult(rule, "no return of a fraction scanner hands back a non-zero count on a path on which the '/' case was entered before any digit")
+    n = 0
+    for f in sorted(prog.funcs.values(), key=lambda x: x.key):
+        if f.live is None or "_dbl." in f.unit or "_mpf." in f.unit or not f.unit.startswith("qsopt_ex/") or "int" not in (f.ret or ""):
+            continue
+        lab = {bid: f.blocks[bid]["l"][1] for bid in f.live if f.blocks[bid].get("l", [""])[0] == "case"}
+        if not DIGITS <= set(lab.values()) or 47 not in set(lab.values()):
+            continue
+        rets = [e for b, i, e in f.elements() if e[0] == "R" and e[1] is not None and is_var(e[1], kind="l")]
+        if not rets:
+            continue
+        cnt = strip(rets[0][1])[2]
+
+        def body_of(bids):
+            out = set()
+            work = [(b_, 0) for b_ in bids]
+            while work:
+                x, d = work.pop()
+                if d > 12:
+                    continue
+                if f.blocks[x]["e"]:
+                    out.add(x)
+                    continue
+                for s_ in prog.live_succs(f, f.blocks[x]):          # a case that opens with a test: both arms belong to it
+                    if s_ is not None:
+                        work.append((s_, d + 1))
+            return out
+        dblocks = body_of([b for b, v in lab.items() if v in DIGITS])
+        sblocks = body_of([b for b, v in lab.items() if v == 47])
+        assigned = collections.defaultdict(list)
+        for b, i, e in f.elements(live_only=False):
+            if e[0] == "A" and is_var(e[1][2], kind="l"):
+                assigned[strip(e[1][2])[2]].append(e[1][3] if e[1][1] == "=" else None)
+            elif e[0] == "D":
+                for n2, init in e[1]:
+                    if init is not None:
+                        assigned[n2].append(init)
+            elif e[0] == "U" and is_var(e[1][2], kind="l"):
+                assigned[strip(e[1][2])[2]].append("inc")
+        flags = sorted(v for v, rs in assigned.items() if v != cnt and rs and all(r == "inc" or (r is not None and const_of(r) is not None) for r in rs))[:12]
+        names = [cnt] + flags
+        cells = IntCells(names, lambda st, c: st[1][names.index(c)], lambda st, c, v: (st[0], st[1][:names.index(c)] + (v,) + st[1][names.index(c) + 1:]))
+        bad = {}
+        n += 1
+        res.obligations += 1
+        res.nontrivial += 1
+
+        def xfer(b, i, e, st):
+            dig, ghost = st[0]
+            if i == 0 and b["id"] in sblocks and not dig:
+                ghost = True
+            if i == 0 and b["id"] in dblocks:
+                dig = True
+            st = ((dig, ghost), st[1])
+            if e[0] == "D":
+                out = [st]
+                for name, init in e[1]:
+                    nxt = []
+                    for s_ in out:
+                        r = cells.declare(s_, name, init)
+                        nxt.extend(r if r is not None else [s_])
+                    out = nxt
+                return out
+            if e[0] == "A":
+                r = cells.assign(st, e[1][2], e[1][3], e[1][1])
+                if r is not None:
+                    return r
+            if e[0] == "U" and is_var(e[1][2], kind="l") and norm_local(strip(e[1][2])[2]) in names:
+                nm = norm_local(strip(e[1][2])[2])
+                if "++" in e[1][1]:
+                    return [cells.put(st, nm, NZ)]
+                return [cells.put(st, nm, Z), cells.put(st, nm, NZ)]
+            if e[0] == "R" and e[1] is not None:
+                if NZ in cells.values(st, e[1]) and ghost:
+                    bad.setdefault(e[2], (b["id"], st))
+            return [st]
+
+        flw = Flow(prog, f, [((False, False), tuple(Z for _ in names))], xfer, lambda c, t, st: cells.refine(c, t, st), max_visits=800000).run()
+        if bad:
+            loc, (bid, st) = sorted(bad.items())[0]
+            res.violations.append(Violation(rule, "%s|a part of the fraction without a digit is accepted" % f.name, f.name, short_loc(loc),
+                                            "%s can return a non-zero count %s on a path on which the '/' case was entered before any digit: '/5' is taken for the "
+                                            "number 0" % (f.name, cnt), path=flw.witness(bid, st)))
+        else:
+            res.sample({"function": f.name, "count": cnt, "verdict": "a numerator without a digit is rejected"}, limit=6)
+    res.counts["fraction_scanners"] = n
+    res.floor("literal scanners with a '/' case", n, floor)
+    return res
